@@ -264,8 +264,39 @@ def check_optimal_step_slots(ctx: Ctx) -> None:
     ctx.ob("13.7-slots", con, n >= 3, "the three values (base, forward, backward) of the parallel branch were not all recognised", node=f, stmt="base, forward and backward slots recognised")
 
 
+_DPL = "core/parallel_execution/disc_parallel_linearization.py"
+_DPE = "core/parallel_execution/disc_parallel_execution.py"
+
+
+def check_discipline_slots(ctx: Ctx) -> None:
+    """13.8: the discipline executors pair result i with discipline i / input i: nothing is filtered out before
+    the pairing, and the returned list keeps one entry per input (None for a failed task)."""
+    for rel, clsn in ((_DPL, "DiscParallelLinearization"), (_DPE, "DiscParallelExecution")):
+        f = ctx.index.method(rel, clsn, "execute")
+        con = cname(rel, clsn, "execute")
+        sup = [s for s in stmts_of(f) if isinstance(s, ast.Assign) and isinstance(s.value, ast.Call) and isinstance(s.value.func, ast.Attribute) and s.value.func.attr == "execute" and norm_stmt(s.value.func.value) == "super()" and isinstance(s.targets[0], ast.Name)]
+        ctx.need(len(sup) == 1, f"{clsn}.execute: `ordered = super().execute(...)` not found")
+        ordered = sup[0].targets[0].id
+        rebound = [s for s in stmts_of(f) if isinstance(s, (ast.Assign, ast.AugAssign)) and s is not sup[0] and any(isinstance(t, ast.Name) and t.id == ordered for t in (s.targets if isinstance(s, ast.Assign) else [s.target]))]
+        ctx.ob("13.8-discipline-slots", con, not rebound, f"the ordered results `{ordered}` are re-bound (filtered / re-ordered) before they are paired with the disciplines: result i then no longer belongs to discipline i, and a failure shifts every later slot", node=(rebound or [sup[0]])[0], stmt="ordered results kept as returned")
+        for z in [c for c in walk_body(f) if isinstance(c, ast.Call) and dotted(c.func) == "zip"]:
+            args = [norm_stmt(a_) for a_ in z.args]
+            if any("_disciplines" in a_ for a_ in args):
+                ok = ordered in args and all(isinstance(a_, (ast.Name, ast.Attribute)) for a_ in z.args)
+                ctx.ob("13.8-discipline-slots", con, ok, "the disciplines must be zipped with the unfiltered ordered results", node=z, stmt="zip(disciplines, ordered results)")
+        for r in [s for s in stmts_of(f) if isinstance(s, ast.Return) and s.value is not None]:
+            v = r.value
+            if isinstance(v, ast.Name):
+                ok = v.id == ordered
+            else:
+                ok = isinstance(v, ast.ListComp) and len(v.generators) == 1 and not v.generators[0].ifs and dotted(v.generators[0].iter) == ordered
+            ctx.ob("13.8-discipline-slots", con, ok, "the list returned has one entry per input, in order (None for a failed task): dropping the failed entries makes it shorter than the inputs and un-matches every later entry", node=r, stmt="one returned entry per input")
+    ctx.floor("13.8-discipline-slots", 5)
+
+
 def run(ctx: Ctx) -> None:
     check_optimal_step_slots(ctx)
+    check_discipline_slots(ctx)
     check_worker(ctx)
     check_dispatcher(ctx)
     lock_discipline(ctx, "13.4-lock")
@@ -287,6 +318,7 @@ def run(ctx: Ctx) -> None:
 
 # ---------------------------------------------------------------------------
 WITNESSES = [
+    {"name": "linearization-drops-failed-slots", "file": _DPL, "old": "        return [out.jacobian if out is not None else None for out in ordered_outputs]", "new": "        return [out.jacobian for out in ordered_outputs if out is not None]", "expect": "13.8"},
     {"name": "cache-jacobian-under-the-hash-lock", "file": "caches/base_full_cache.py", "old": "    @synchronized\n    def cache_jacobian(", "new": "    @synchronized_hashes\n    def cache_jacobian(", "expect": "13.4"},
     {"name": "optimal-step-backward-slot-off-by-one", "file": FDF, "old": "                f_m = outputs[n_dim + i + 1]", "new": "                f_m = outputs[n_dim + i]", "expect": "13.7"},
     {"name": "optimal-step-forward-backward-swapped", "file": FDF, "old": "            all_x = [x_vect] + [x_p_arr[:, i] for i in range(n_dim)]\n            all_x += [x_m_arr[:, i] for i in range(n_dim)]", "new": "            all_x = [x_vect] + [x_m_arr[:, i] for i in range(n_dim)]\n            all_x += [x_p_arr[:, i] for i in range(n_dim)]", "expect": "13.7"},
